@@ -63,6 +63,7 @@ Definition v_call (cfg : config) (cv : call * bool) : val :=
         [VS "hyptransfer"; VS sender; VS tok; VZ dom; VS rcp; VZ a; VO VS hook; VZ gas; VS fd; VZ fa; VS md]
     | CBankSend from to d a => [VS "banksend"; VS from; VS to; v_coins d a]
     | CCctpReplace from om oa nc nr => [VS "cctpreplace"; VS from; VS om; VS oa; VS nc; VS nr]
+    | CSend from to d a => [VS "feesend"; VS from; VS to; v_coins d a]
     end in
   VL (body ++ [VB ok]).
 
@@ -130,3 +131,19 @@ Definition keep (mask : list nat) (v : val) : val :=
 Definition project (mask : list nat) (v : val) : val :=
   match v with VL l => VL (map (keep mask) l) | x => x end.
 Definition run_world_masked (mc : list nat * world_case) : val := project (fst mc) (run_world (snd mc)).
+
+(* ---------- C06: the same histories on the instance that also has the swap controller ---------- *)
+From Orbiter Require Import Model.Swap.
+Definition step_swap (cfg : config) (e : env) (pool : string) (w : world) (o : op) : world * out :=
+  match o with
+  | ORecv p tape lie => let r := recv_with repaired cfg (swap_actions cfg e pool) e w p tape lie in (rr_world r, OutRecv r)
+  | _ => step cfg e w o
+  end.
+Fixpoint run_swap_ops (c : world_case) (cfg : config) (e : env) (pool : string) (w : world) (ops : list op) : list val :=
+  match ops with
+  | [] => []
+  | o :: r => let '(w1, x) := step_swap cfg e pool w o in v_out c cfg w1 x :: run_swap_ops c cfg e pool w1 r
+  end.
+Definition run_world_swap (mc : (list nat * string) * world_case) : val :=
+  let '((mask, pool), c) := mc in
+  project mask (VL (run_swap_ops c (cfg_of c) (env_of (wc_bech32 c) (wc_ints c)) pool (world0 c) (wc_ops c))).
